@@ -1034,7 +1034,7 @@ R11_OWNED_ELSEWHERE = {
     # pipe() users whose descriptors live in a struct field and are decided by their own rule
     'yash_semantics::command::pipeline::PipeSet::shift': 'C08.R9 / C09.R3',
 }
-R11_THROUGH = Q.PROPAGATING_CALLS + Q.AWAIT_CALLS
+R11_THROUGH = Q.PROPAGATING_CALLS + Q.AWAIT_CALLS + [re.compile(r'::(clone|copied|cloned)$')]
 
 
 def _fd_comps(body, seeds):
@@ -1138,7 +1138,11 @@ def _fd_release_blocks(F, body, comp, of_operand, c, depth, memo, notes):
         for i in hits:
             if not (i < len(t.get('at') or []) and t['at'][i] == FD_TY):
                 continue
-            if _param_closed_on_all_exits(F, callee, i, depth - 1, memo, notes) is None:
+            w = _param_closed_on_all_exits(F, callee, i, depth - 1, memo, notes)
+            if w is not None and w[0] not in (None, 'rec') and w[1] is not None and Q.find_calls(w[0], CLOSE_PATS):
+                notes.append('%s: handed to %s at %s, which does NOT close it on its exit through %s' % (
+                    body.fn, callee, body.loc(t), Q.render_path(w[0], w[1])))
+            if w is None:
                 if (F.fns.get(callee) or {}).get('async') and await_done(F, body, du, t) is None:
                     continue
                 rel.add(b)
@@ -1210,5 +1214,6 @@ def r11(cx):
             cx.violation(body.root, 'pipe-end-left-open:%s|exit:%s' % (end, lab), 'after a successful pipe() the function can return through %s with the '
                          '%s end of the pipe still open in the parent shell: when the subshell cannot be started (fork fails) every such '
                          'command substitution leaves descriptors behind in the shell, inherited by every later child, until EMFILE'
-                         % (what, end), loc=body.loc(body.term(p[-1])), path=Q.render_path(body, p))
+                         % (what, end) + ''.join(' [%s]' % x for x in notes if ' does NOT close ' in x),
+                         loc=body.loc(body.term(p[-1])), path=Q.render_path(body, p))
     cx.floor(n, 1, 'holders of a pipe() pair')
